@@ -31,6 +31,15 @@ type tctl struct {
 	subscribe  func() (*tsub, error)
 	subscribeF func(f filter.Filter) (*tsub, error)
 	monitor    func(n *node) (kcache.Monitor, error)
+
+	// the rest of the typed API: for-filter subscription, the three clone
+	// forms (each wrapped again as a typed controller, with its Refilter), and
+	// a monitor with a unitary handler (ToUnitary)
+	subscribeFF func() (*tsub, func(filter.Filter) error, error)
+	clone       func() (*tctl, error)
+	cloneF      func(f filter.Filter) (*tctl, func(filter.Filter) error, error)
+	cloneFF     func() (*tctl, func(filter.Filter) error, error)
+	unitary     func(log logutil.Log, rec func(what string, id int)) (kcache.Monitor, error)
 }
 
 // tsub is a typed subscription.
